@@ -43,6 +43,7 @@ type HarnessSpec struct {
 	MaxSteps   int            `json:"max_steps,omitempty"`
 	MapOrders  []string       `json:"map_orders,omitempty"`
 	NoReplay   bool           `json:"no_replay,omitempty"`
+	ReplayTries int           `json:"replay_tries,omitempty"`
 	Bounds     string         `json:"bounds,omitempty"`
 	Params     map[string]int `json:"-"`
 }
